@@ -176,7 +176,16 @@ class Spec:
                         and not any(isinstance(e, ast.Starred) for e in d.value.elts):
                     out += self.sources(d.value.elts[d.index], d.node, _depth + 1, _seen)
                 else:
-                    out.append(("unpack", (d.value, d.index, d.node)))
+                    done = False
+                    if isinstance(d.value, ast.Name) and d.index is not None:
+                        inner = self.sources(d.value, d.node, _depth + 1, set(_seen))
+                        if inner and all(k == "expr" and isinstance(p, ast.Tuple) and d.index < len(p.elts)
+                                         and not any(isinstance(e, ast.Starred) for e in p.elts) for k, p in inner):
+                            for k, p in inner:
+                                out += self.sources(p.elts[d.index], self.where.get(id(p)) or d.node, _depth + 1, _seen)
+                            done = True
+                    if not done:
+                        out.append(("unpack", (d.value, d.index, d.node)))
             elif d.kind == "for":
                 out.append(("iter", (d.value, d.index, d.node)))
             elif d.kind == "with":
